@@ -88,7 +88,69 @@ def flag (s : String) : Bool := s = "1"
 def mkCat (cid : Option Int) (evs : List Event) : Catalog Unit :=
   { events := evs, catalogId := cid, name := none, region := none }
 
+/-! round 4: regions travel as `<name: x-hex | none> <dh n/d | none> <origins `a:b;a:b…` | - | none>` -/
+def parseOptName (s : String) : Option (Option (List Char)) := if s = "none" then some none else (unhex s).map some
+def showOptName : Option (List Char) → String
+  | none => "none" | some n => hex n
+def parsePair (s : String) : Option (Rat × Rat) :=
+  match s.splitOn ":" with
+  | [a, b] => do
+      let a ← parseRat? a
+      let b ← parseRat? b
+      some (a, b)
+  | _ => none
+def parsePairs (s : String) : Option (List (Rat × Rat)) := if s = "-" then some [] else (s.splitOn ";").mapM parsePair
+def showPairs (l : List (Rat × Rat)) : String :=
+  if l.isEmpty then "-" else ";".intercalate (l.map (fun p => s!"{showRat p.1}:{showRat p.2}"))
+def parseOptRat (s : String) : Option (Option Rat) := if s = "none" then some none else (parseRat? s).map some
+def parseOptPairs (s : String) : Option (Option (List (Rat × Rat))) :=
+  if s = "none" then some none else (parsePairs s).map some
+def showRegion (r : Region) : String := s!"{showOptName r.name} {showRat r.dh} {showPairs r.origins}"
+
 def handle : List String → Option String
+  -- c14_writeg <hdr> <emp> <app> <cid> <events> <old> <hasIdCol> : write_ascii(id_col=…) with / without the column
+  | ["c14_writeg", hdr, emp, app, cid, evs, old, hasid] => some (
+      match parseCatId cid, parseEvents evs, parseLines old with
+      | some cid, some evs, some old =>
+          showLines (writeAsciiG codec (mkCat cid evs) (flag hdr) (flag emp) (flag app) old (flag hasid))
+      | _, _, _ => "bad-op")
+  -- c14_region_dict <name> <dh> <origins lon:lat> : the dict form (name, dh, polygons as lat:lon, class id)
+  | ["c14_region_dict", name, dh, org] => some (
+      match parseOptName name, parseRat? dh, parsePairs org with
+      | some name, some dh, some org =>
+          let d := Region.toDict { origins := org, dh := dh, name := name, magnitudes := none }
+          s!"{showOptName d.name} {match d.dh with | some x => showRat x | none => "none"} " ++
+          s!"{match d.polygons with | some p => showPairs p | none => "none"} {showOptName d.classId}"
+      | _, _, _ => "bad-op")
+  -- c14_region_rt <name> <dh> <origins> : the region after from_dict(to_dict())
+  | ["c14_region_rt", name, dh, org] => some (
+      match parseOptName name, parseRat? dh, parsePairs org with
+      | some name, some dh, some org =>
+          (match Region.fromDict (Region.toDict { origins := org, dh := dh, name := name, magnitudes := none }) with
+           | .ok r => showRegion r
+           | .error _ => "error")
+      | _, _, _ => "bad-op")
+  -- c14_region_load <present 0/1> <class id> <name> <dh> <polygons lat:lon> : the region branch of Catalog.from_dict
+  | ["c14_region_load", present, cls, name, dh, polys] => some (
+      match parseOptName cls, parseOptName name, parseOptRat dh, parseOptPairs polys with
+      | some cls, some name, some dh, some polys =>
+          let rd : Option RegionDict :=
+            if flag present then some { name := name, dh := dh, polygons := polys, classId := cls } else none
+          (match loadRegion rd with
+           | .ok none => "none"
+           | .ok (some r) => "region " ++ showRegion r
+           | .error .keyError => "KeyError"
+           | .error .attributeError => "AttributeError")
+      | _, _, _, _ => "bad-op")
+  -- c14_cells <dh> <origins> <points lon:lat> : cell of every point (`-1` = outside) and the per-cell counts
+  | ["c14_cells", dh, org, pts] => some (
+      match parseRat? dh, parsePairs org, parsePairs pts with
+      | some dh, some org, some pts =>
+          let r : Region := { origins := org, dh := dh, name := none, magnitudes := none }
+          let cells := pts.map (fun p => match r.cellOf p.1 p.2 with | some i => toString i | none => "-1")
+          let evs : List Event := pts.map (fun p => { id := [], ms := 0, lat := p.2, lon := p.1, depth := 0, mag := 0 })
+          ",".intercalate cells ++ " " ++ ",".intercalate ((cellCounts r.afterDict evs).map toString)
+      | _, _, _ => "bad-op")
   | ["c14_write", hdr, emp, app, cid, evs, old] => some (
       match parseCatId cid, parseEvents evs, parseLines old with
       | some cid, some evs, some old => showLines (writeAscii codec (mkCat cid evs) (flag hdr) (flag emp) (flag app) old)
